@@ -52,6 +52,45 @@ fn other_point(seed: u64, hash: &str) -> Vec<u8> {
     }
 }
 
+/// A non-identity point of the curve whose order divides the cofactor (r times a curve point outside the prime-order group).
+fn torsion_point() -> G1Projective {
+    use group::GroupEncoding;
+    use midnight_curves::G1Affine;
+    for x in 1u8..=255 {
+        let mut repr = <G1Affine as GroupEncoding>::Repr::default();
+        repr.as_mut()[0] = 0x80;
+        repr.as_mut()[47] = x;
+        let c: Option<G1Affine> = G1Affine::from_bytes_unchecked(&repr).into();
+        let Some(c) = c else { continue };
+        let c = G1Projective::from(c);
+        let t = c * (-F::ONE) + c;
+        if !bool::from(t.is_identity()) {
+            return t;
+        }
+    }
+    panic!("no curve point outside the prime-order group found");
+}
+
+/// The encoding of (the point these bytes encode) + (a point of cofactor order): a different byte string which a decoder
+/// that checks group membership refuses, and which the pairing equation cannot tell from the original.
+fn plus_torsion(seg: &[u8]) -> Vec<u8> {
+    use group::GroupEncoding;
+    use midnight_curves::G1Affine;
+    let mut repr = <G1Affine as GroupEncoding>::Repr::default();
+    if seg.len() != repr.as_ref().len() {
+        return vec![0xff; seg.len()];
+    }
+    repr.as_mut().copy_from_slice(seg);
+    let p: Option<G1Affine> = G1Affine::from_bytes(&repr).into();
+    match p {
+        Some(p) => {
+            let q: G1Affine = (G1Projective::from(p) + torsion_point()).into();
+            q.to_bytes().as_ref().to_vec()
+        }
+        None => vec![0xff; seg.len()],
+    }
+}
+
 fn mutate_scalar(bytes: &[u8], m: &str) -> Vec<u8> {
     let le = scalar_le();
     let v = if le { BigUint::from_bytes_le(bytes) } else { BigUint::from_bytes_be(bytes) };
@@ -168,7 +207,7 @@ pub fn run_one(cache: &mut ParamCache, sc: &J, bits: bool, out: &mut dyn Write) 
 
     // A. element mutations
     for (i, (off, len, kind)) in lay.iter().enumerate() {
-        let muts: &[&str] = if *kind == "point" { &["other", "invalid", "signflip"] } else { &["other", "noncanonical"] };
+        let muts: &[&str] = if *kind == "point" { &["other", "invalid", "signflip", "torsion"] } else { &["other", "noncanonical"] };
         for m in muts {
             let mut pr = ctx.proof.clone();
             let seg = &ctx.proof[*off..*off + *len];
@@ -180,6 +219,7 @@ pub fn run_one(cache: &mut ParamCache, sc: &J, bits: bool, out: &mut dyn Write) 
                     s[0] ^= 0x20;
                     s
                 }
+                ("point", "torsion") => plus_torsion(seg),
                 (_, mm) => mutate_scalar(seg, mm),
             };
             pr[*off..*off + *len].copy_from_slice(&new);
